@@ -8,6 +8,12 @@
                               RestoreFromSnapshot (KVSnapInfo.RemoteSyncedStates)
      node/raft.go             startRaft restart path: restore newest snapshot (or clean data), replay the WAL tail
      server/grpc_api.go       ApplyRaftReqs: receive-side pre-filter, stop at the first error, wait for all futures
+     node/remote_sync_mgr.go  remote SNAPSHOT branch: remoteSyncedStateMgr.{AddApplyingSnap,UpdateApplyingSnapStatus,
+                              GetApplyingSnap} (without the 5-minute timeouts), KVNode.BeginTransferRemoteSnap,
+                              KVNode.ApplyRemoteSnapshot, preprocessRemoteSnapApply, postprocessRemoteApply (snapshot
+                              branches); node/state_machine.go handleCustomRequest TransferRemoteSnap (file sync itself
+                              not modelled: always succeeds), ApplyRemoteSnap (restore from the transferred checkpoint:
+                              the checkpoint's content is an input), ApplySkippedRemoteSnap
    The data is abstracted to a journal (what the non-idempotent commands RPUSH / INCRBY / APPEND of the
    harness record): one element per applied entry, so that a repeated apply is visible.
    No proofs in this file. *)
@@ -81,7 +87,12 @@ Definition init_r : rstate := mkR [] [].
 (* an entry of the receiving replica's own raft log *)
 Inductive lentry :=
 | LSync (e : sentry)          (* BatchInternalRaftRequest with Type = FromClusterSyncer *)
-| LLocal (tag p : N).         (* an ordinary write (Type = 0) *)
+| LLocal (tag p : N)          (* an ordinary write (Type = 0) *)
+| LXfer (e : sentry)          (* custom request TransferRemoteSnap for the source snapshot at (term, index) of e *)
+| LSnap (e : sentry) (content : option journal)
+                              (* custom request ApplyRemoteSnap; content = what the transferred checkpoint holds
+                                 (None: no usable checkpoint, RestoreFromRemoteBackup fails) *)
+| LSkip (e : sentry).         (* custom request ApplySkippedRemoteSnap *)
 
 (* the state machine effect of one entry's commands *)
 Definition sm_apply (j : journal) (tag p : N) : journal := j ++ [(tag, p)].
@@ -94,6 +105,18 @@ Definition apply_entry (st : rstate) (le : lentry) : rstate :=
   | LSync e =>
       if is_already_applied (r_synced st) e then st
       else mkR (sm_apply (r_journal st) (s_cluster e) (s_payload e)) (postprocess (r_synced st) e)
+  | LXfer e => st
+      (* filtered or not, the store and the synced map are untouched: the transfer only moves the snapshot status,
+         "for remote snapshot transfer, we need wait apply success before update sync state" *)
+  | LSnap e content =>
+      if is_already_applied (r_synced st) e then st
+      else match content with
+           | Some j => mkR j (postprocess (r_synced st) e)   (* the whole store is replaced by the checkpoint *)
+           | None => st                                      (* errIgnoredRemoteApply: no UpdateState *)
+           end
+  | LSkip e =>
+      if is_already_applied (r_synced st) e then st
+      else mkR (r_journal st) (postprocess (r_synced st) e)  (* position only, by the operator's decision *)
   end.
 
 (* the states the apply loop passes through while handling one entry, in order
@@ -105,9 +128,73 @@ Definition apply_phases (st : rstate) (le : lentry) : list rstate :=
       if is_already_applied (r_synced st) e then [st]
       else [mkR (sm_apply (r_journal st) (s_cluster e) (s_payload e)) (r_synced st);
             mkR (sm_apply (r_journal st) (s_cluster e) (s_payload e)) (postprocess (r_synced st) e)]
+  | LXfer e => [st]
+  | LSnap e content =>
+      if is_already_applied (r_synced st) e then [st]
+      else match content with
+           | Some j => [mkR j (r_synced st); mkR j (postprocess (r_synced st) e)]
+           | None => [st]
+           end
+  | LSkip e =>
+      if is_already_applied (r_synced st) e then [st]
+      else [mkR (r_journal st) (postprocess (r_synced st) e)]
   end.
 
 Definition apply_log (st : rstate) (l : list lentry) : rstate := fold_left apply_entry l st.
+
+(* ---------- remote snapshot apply status (remoteSnapshotsApplying; volatile, not part of the raft snapshot) ---------- *)
+
+Record snapst := mkSn { sn_term : N; sn_index : N; sn_status : N }.
+Definition snapmap := list (N * snapst).
+
+Fixpoint snm_get (c : N) (m : snapmap) : option snapst :=
+  match m with
+  | [] => None
+  | (k, v) :: r => if c =? k then Some v else snm_get c r
+  end.
+
+Fixpoint snm_set (c : N) (v : snapst) (m : snapmap) : snapmap :=
+  match m with
+  | [] => [(c, v)]
+  | (k, x) :: r =>
+      if c =? k then (c, v) :: r
+      else if c <? k then (c, v) :: (k, x) :: r
+      else (k, x) :: snm_set c v r
+  end.
+
+Definition same_snap (s : snapst) (t i : N) : bool := (sn_term s =? t) && (sn_index s =? i).
+
+(* AddApplyingSnap without its time-outs (5 minutes; no run of the harness lasts that long):
+   a new record is created only when there is none or the old one is Done *)
+Definition add_applying (m : snapmap) (c t i : N) : snapmap * bool :=
+  match snm_get c m with
+  | None => (snm_set c (mkSn t i apply_snap_begin) m, true)
+  | Some o => if sn_status o =? apply_snap_done then (snm_set c (mkSn t i apply_snap_begin) m, true)
+              else (m, false)
+  end.
+
+(* UpdateApplyingSnapStatus: only the record of the very same snapshot moves *)
+Definition update_status (m : snapmap) (c t i st : N) : snapmap :=
+  match snm_get c m with
+  | Some o => if same_snap o t i then snm_set c (mkSn t i st) m else m
+  | None => m
+  end.
+
+(* what applyEntry does to the status map (preprocessRemoteSnapApply / postprocessRemoteApply);
+   before: the synced map before the entry; restored: whether the restore succeeded *)
+Definition apply_snaps (m : snapmap) (before : smap) (le : lentry) : snapmap :=
+  match le with
+  | LXfer e =>
+      if is_already_applied before e then m
+      else let m1 := fst (add_applying m (s_cluster e) (s_term e) (s_index e)) in
+           let m2 := update_status m1 (s_cluster e) (s_term e) (s_index e) apply_snap_transferring in
+           update_status m2 (s_cluster e) (s_term e) (s_index e) apply_snap_transferred
+  | LSnap e content =>
+      if is_already_applied before e then m
+      else update_status m (s_cluster e) (s_term e) (s_index e)
+             (match content with Some _ => apply_snap_done | None => apply_snap_failed end)
+  | _ => m
+  end.
 
 (* ---------- the replica with its raft log, snapshot and in-flight proposals ---------- *)
 
@@ -115,9 +202,13 @@ Record node := mkN {
   n_cur : rstate;                       (* store + remoteSyncedStates in memory *)
   n_log : list lentry;                  (* committed entries of the local raft log *)
   n_snap : option (nat * rstate);       (* newest snapshot: (number of entries covered, KVSnapInfo = data + synced map) *)
-  n_pending : list lentry               (* proposed, not yet committed *)
+  n_pending : list lentry;              (* proposed, not yet committed *)
+  n_snaps : snapmap                     (* remote snapshot apply status, in memory only *)
 }.
-Definition init_node : node := mkN init_r [] None [].
+Definition init_node : node := mkN init_r [] None [] [].
+
+(* the timestamp ApplyRemoteSnapshot stamps on its request is the wall clock; the model uses a constant *)
+Definition snap_ts : N := 2305843009213693952.  (* 2^61 *)
 
 Inductive op :=
 | ODeliver (e : sentry) (tsok propok pre : bool)
@@ -128,15 +219,27 @@ Inductive op :=
 | OLocal (p : N)             (* a local client write is committed and applied *)
 | OSnap                      (* snapshot at the applied position *)
 | ORestart                   (* process restart: restore newest snapshot (or nothing), replay the log tail *)
-| ORpc (b : list (sentry * bool)).
+| ORpc (b : list (sentry * bool))
+| OXfer (c t i : N)          (* BeginTransferRemoteSnap(cluster, term, index) *)
+| OSnapReq (c t i : N) (content : option journal)
+                             (* ApplyRemoteSnapshot(skip = false); content = the checkpoint found at apply time *)
+| OSkipReq (c t i : N).      (* ApplyRemoteSnapshot(skip = true) *)
     (* one whole ApplyRaftReqs call with entries (entry, tsok) whose proposals all commit and apply
        before it returns (single healthy leader) *)
 
 Inductive res := ROk | RErr | RNone | ROkN (n : nat) | RSkip.
 
+(* the status map follows the same entries (it needs the synced map as it was before each entry) *)
+Fixpoint apply_log_snaps (m : snapmap) (st : rstate) (l : list lentry) : snapmap :=
+  match l with
+  | [] => m
+  | le :: r => apply_log_snaps (apply_snaps m (r_synced st) le) (apply_entry st le) r
+  end.
+
 Definition commit_n (nd : node) (k : nat) : node :=
   let ents := firstn k (n_pending nd) in
-  mkN (apply_log (n_cur nd) ents) (n_log nd ++ ents) (n_snap nd) (skipn k (n_pending nd)).
+  mkN (apply_log (n_cur nd) ents) (n_log nd ++ ents) (n_snap nd) (skipn k (n_pending nd))
+      (apply_log_snaps (n_snaps nd) (n_cur nd) ents).
 
 (* ApplyRaftReqs' loop: skip pre-filtered entries, stop at the first error, collect the proposals *)
 Fixpoint rpc_collect (m : smap) (b : list (sentry * bool)) : list lentry * bool :=
@@ -151,13 +254,18 @@ Fixpoint rpc_collect (m : smap) (b : list (sentry * bool)) : list lentry * bool 
 Definition restore (nd : node) : nat * rstate :=
   match n_snap nd with Some (k, s) => (k, s) | None => (0%nat, init_r) end.
 
+Definition with_pending (nd : node) (p : list lentry) : node :=
+  mkN (n_cur nd) (n_log nd) (n_snap nd) p (n_snaps nd).
+Definition with_snaps (nd : node) (m : snapmap) : node :=
+  mkN (n_cur nd) (n_log nd) (n_snap nd) (n_pending nd) m.
+
 Definition step (nd : node) (o : op) : node * res :=
   match o with
   | ODeliver e tsok propok pre =>
       if pre && prefilter (r_synced (n_cur nd)) e then (nd, RSkip)
       else if negb tsok then (nd, RErr)
       else if negb propok then (nd, RErr)
-      else (mkN (n_cur nd) (n_log nd) (n_snap nd) (n_pending nd ++ [LSync e]), ROk)
+      else (with_pending nd (n_pending nd ++ [LSync e]), ROk)
   | OCommit n =>
       let k := Nat.min n (length (n_pending nd)) in
       match k with
@@ -167,19 +275,40 @@ Definition step (nd : node) (o : op) : node * res :=
   | OLose =>
       match n_pending nd with
       | [] => (nd, RNone)
-      | _ :: r => (mkN (n_cur nd) (n_log nd) (n_snap nd) r, ROk)
+      | _ :: r => (with_pending nd r, ROk)
       end
   | OLocal p =>
-      (mkN (apply_entry (n_cur nd) (LLocal 0 p)) (n_log nd ++ [LLocal 0 p]) (n_snap nd) (n_pending nd), ROk)
+      (mkN (apply_entry (n_cur nd) (LLocal 0 p)) (n_log nd ++ [LLocal 0 p]) (n_snap nd) (n_pending nd) (n_snaps nd), ROk)
   | OSnap =>
-      (mkN (n_cur nd) (n_log nd) (Some (length (n_log nd), n_cur nd)) (n_pending nd), ROk)
+      (mkN (n_cur nd) (n_log nd) (Some (length (n_log nd), n_cur nd)) (n_pending nd) (n_snaps nd), ROk)
   | ORestart =>
+      (* a new process: nothing in flight, an empty status map; newest snapshot (store + synced map) restored,
+         the log tail replayed through the same apply path *)
       let '(k, s) := restore nd in
-      (mkN (apply_log s (skipn k (n_log nd))) (n_log nd) (n_snap nd) [], ROk)
+      let tail := skipn k (n_log nd) in
+      (mkN (apply_log s tail) (n_log nd) (n_snap nd) [] (apply_log_snaps [] s tail), ROk)
   | ORpc b =>
       let '(l, ok) := rpc_collect (r_synced (n_cur nd)) b in
-      let nd1 := mkN (n_cur nd) (n_log nd) (n_snap nd) (n_pending nd ++ l) in
+      let nd1 := with_pending nd (n_pending nd ++ l) in
       (commit_n nd1 (length (n_pending nd1)), if ok then ROk else RErr)
+  | OXfer c t i =>
+      (* BeginTransferRemoteSnap: AddApplyingSnap; refuse when another snapshot is in progress; else propose *)
+      let '(m, added) := add_applying (n_snaps nd) c t i in
+      let other := match snm_get c (n_snaps nd) with Some o => negb (same_snap o t i) | None => false end in
+      if negb added && other then (nd, RErr)
+      else (with_pending (with_snaps nd m) (n_pending nd ++ [LXfer (mkS c t i 0 0)]), ROk)
+  | OSnapReq c t i content =>
+      (* ApplyRemoteSnapshot(skip=false): the transfer of exactly this snapshot must be finished *)
+      match snm_get c (n_snaps nd) with
+      | None => (nd, RErr)
+      | Some o =>
+          if negb (same_snap o t i) then (nd, RErr)
+          else if negb (sn_status o =? apply_snap_transferred) then (nd, RErr)
+          else (with_pending (with_snaps nd (update_status (n_snaps nd) c t i apply_snap_applying))
+                             (n_pending nd ++ [LSnap (mkS c t i snap_ts 0) content]), ROk)
+      end
+  | OSkipReq c t i =>
+      (with_pending nd (n_pending nd ++ [LSkip (mkS c t i snap_ts 0)]), ROk)
   end.
 
 Definition run (ops : list op) : node := fold_left (fun nd o => fst (step nd o)) ops init_node.
